@@ -648,7 +648,7 @@ def idxA {α : Type} (xs : List α) (i : Int) : Except (Fail Rat) α :=
   | some x => pure x
   | none => throw (.host .indexError)
 
-def atIndexA {α : Type} (len : Nat) (i : Int) : Except (Fail Rat) Nat :=
+def atIndexA (len : Nat) (i : Int) : Except (Fail Rat) Nat :=
   match normIndex len i with
   | some k => pure k
   | none => throw (.host .indexError)
@@ -658,7 +658,7 @@ def arrayDeleteA (v : List AVal) : Except (Fail Rat) (BodyR Rat) := do
   let xs ← req a.asArr?
   let index ← req i.asNum?
   if geLenA index xs.length then throw (.args .null)
-  let k ← atIndexA (α := Unit) xs.length (ratTrunc index)
+  let k ← atIndexA xs.length (ratTrunc index)
   pure (.null, some (xs.eraseIdx k))
 
 def arrayGetA (v : List AVal) : Except (Fail Rat) (BodyR Rat) := do
@@ -674,7 +674,7 @@ def arraySetA (v : List AVal) : Except (Fail Rat) (BodyR Rat) := do
   let xs ← req a.asArr?
   let index ← req i.asNum?
   if geLenA index xs.length then throw (.args .null)
-  let k ← atIndexA (α := Unit) xs.length (ratTrunc index)
+  let k ← atIndexA xs.length (ratTrunc index)
   pure (value, some (xs.set k value))
 
 def arraySliceA (v : List AVal) : Except (Fail Rat) (BodyR Rat) := do
